@@ -28,9 +28,10 @@ pub fn check_contract(recs: &[Rec], tr: u8, owner: usize, independent: bool, is_
                 in_owner_poll = true;
                 streak = 0;
             }
-            Ev::PollEnd { task, out } if *task == owner => {
+            Ev::PollEnd { task, out, woken } if *task == owner => {
                 in_owner_poll = false;
-                if out == "Pending" && unflushed > 0 && !flush_in_progress && failed.is_none() && !connection_over {
+                // a task that is already woken again when it returns Pending has not gone idle
+                if out == "Pending" && !*woken && unflushed > 0 && !flush_in_progress && failed.is_none() && !connection_over {
                     return Err(format!(
                         "seq {}: the endpoint went idle (returned Pending) with {unflushed} written item(s) not flushed and no flush in progress",
                         r.seq
